@@ -8,9 +8,10 @@ package core
 //@ global leftOf map[Schedule]int
 
 //@ iface Schedule.Next
+//@ ensures [token-event] ev(token) == old(ev(token)) + ite(ok, 1, 0)
 //@ ensures [left-drops] imp(ok && old(leftOf[self]) > 0, leftOf[self] == old(leftOf[self]) - 1)
 //@ ensures [exhausted] imp(old(leftOf[self]) == 0, !ok && leftOf[self] == 0)
-//@ modifies leftOf[self]
+//@ modifies leftOf[self], ev(token)
 
 //@ iface Schedule.Left
 //@ ensures result == leftOf[self]
@@ -18,3 +19,25 @@ package core
 
 //@ iface Schedule.Start
 //@ modifies leftOf[self]
+
+// Ghost event counters of one pool run.
+//@ event token acquire_ok release shoot report
+
+//@ iface Provider.Acquire
+//@ ensures ev(acquire_ok) == old(ev(acquire_ok)) + ite(ok, 1, 0)
+//@ modifies ev(acquire_ok)
+
+//@ iface Provider.Release
+//@ ensures ev(release) == old(ev(release)) + 1
+//@ modifies ev(release)
+
+// A gun may panic (instance.Run recovers); the shot is counted either way.
+//@ iface Gun.Shoot
+//@ may_panic true
+//@ ensures ev(shoot) == old(ev(shoot)) + 1
+//@ panics ensures ev(shoot) == old(ev(shoot)) + 1
+//@ modifies ev(shoot)
+
+//@ iface Aggregator.Report
+//@ ensures ev(report) == old(ev(report)) + 1
+//@ modifies ev(report)
